@@ -257,7 +257,16 @@ def _one(args):
                 complete = False
             c2 = classify_msg(ah.get("x-src"), ab, complete, vbody, abody)
             if c2 in ("virgin", "adapted"):
-                cls = c2 if (r is not None and r.status == 200 and r.body == b"origin-ok") else "mixed"
+                if r is not None and r.status == 200 and r.body == b"origin-ok":
+                    cls = c2
+                elif (c2 == "adapted" and a and a.get("cut") and a["cut"][0] == "nolast" and a["cl"]
+                      and (r is None or r.status >= 500 or not r.complete)):
+                    # the ICAP reply lacked only the last-chunk: all Content-Length bytes of the adapted request may have
+                    # reached the origin before squid aborted the transaction and answered ERR_ICAP_FAILURE (a race);
+                    # purely adapted bytes, reported as a failure: the aborted class
+                    cls = "error"
+                else:
+                    cls = "mixed"
             elif c2 in ("trunc-adapted", "trunc-virgin"):
                 cls = "error" if (r is None or r.status >= 500 or not r.complete) else "mixed"
             else:
